@@ -128,3 +128,22 @@ Proof.
   exact (c06_exact_consumption _ _ bs rest (WM_ctrls ib _ cts cs Hop Hc) He).
 Qed.
 Print Assumptions c03_from_the_wire_with_controls.
+
+(* ---- the responses fed to the unchanged client in the last probe of round 0, on the model ---- *)
+Require Import Coq.Strings.String.
+From S Require Filter.
+Definition sb (s : string) := Filter.s2b s.
+Example c03_probe_delete_with_referrals :
+  result_of_tree (C Application 11 (cons (P Universal 10 (cons x0a nil)) (cons (oct (sb "dc=x")) (cons (oct (sb "msg"))
+      (cons (C Context 3 (cons (oct (sb "ldap://a/")) (cons (oct (sb "ldap://b/")) nil))) nil))))) =
+  Ok {| rc := 10; matched := sb "dc=x"; text := sb "msg"; refs := cons (sb "ldap://a/") (cons (sb "ldap://b/") nil);
+        exop_name := None; exop_val := None; sasl := None |}.
+Proof. vm_compute. reflexivity. Qed.
+Example c03_probe_extended :
+  result_of_tree (C Application 24 (cons (P Universal 10 (cons x00 nil)) (cons (oct nil) (cons (oct nil)
+      (cons (P Context 10 (sb "1.2.3")) (cons (P Context 11 (sb "dn:cn=a")) nil)))))) =
+  Ok {| rc := 0; matched := nil; text := nil; refs := nil; exop_name := Some (sb "1.2.3"); exop_val := Some (sb "dn:cn=a"); sasl := None |}.
+Proof. vm_compute. reflexivity. Qed.
+Example c03_probe_two_byte_code :
+  option_map rc (match result_of_tree (C Application 15 (cons (P Universal 10 (cons x01 (cons x00 nil))) (cons (oct nil) (cons (oct nil) nil)))) with Ok r => Some r | Panic => None end) = Some 256.
+Proof. vm_compute. reflexivity. Qed.
